@@ -158,8 +158,16 @@ func (u *Universe) Package(pkgPath string) Package {
 
 func (u *Universe) LocateInPackage(pos token.Pos) Package {
 	// the file the position is in, not the one a //line directive names
-	pp := u.fset.PositionFor(pos, false)
-	dir := filepath.Dir(pp.Filename)
+	if p := u.packageOfFile(u.fset.PositionFor(pos, false).Filename); p != nil {
+		return p
+	}
+	// unless that file is no package's source: the go tool compiles cgo sources into files of its build cache,
+	// whose //line directives name the sources they were made from
+	return u.packageOfFile(u.fset.PositionFor(pos, true).Filename)
+}
+
+func (u *Universe) packageOfFile(filename string) Package {
+	dir := filepath.Dir(filename)
 
 	for _, p := range u.pkgs {
 		if dir == p.SourceDir() {
